@@ -476,8 +476,10 @@ unsigned char *vh_ref_sign(const vh_key_t *k, int alg, const void *msg, size_t n
 		unsigned char *raw;
 		if (!es) { free(sig); return NULL; }
 		raw = malloc((size_t)w * 2);
-		BN_bn2binpad(ECDSA_SIG_get0_r(es), raw, w);
-		BN_bn2binpad(ECDSA_SIG_get0_s(es), raw + w, w);
+		if (BN_bn2binpad(ECDSA_SIG_get0_r(es), raw, w) < 0 || BN_bn2binpad(ECDSA_SIG_get0_s(es), raw + w, w) < 0) {
+			ECDSA_SIG_free(es); free(sig); free(raw);
+			return NULL;
+		}
 		ECDSA_SIG_free(es);
 		free(sig);
 		*siglen = (size_t)w * 2;
